@@ -4,7 +4,7 @@ From Coq Require Import ZArith List Bool.
 From Centro Require Import Base.Sx Base.EmdBase Spec.Emd Model.Emd Model.EmdCert
   Proofs.EmdDuality Proofs.EmdScaled Proofs.EmdModel Proofs.EmdSsp Proofs.EmdCertModel Proofs.EmdMetric
   Proofs.EmdFuel Proofs.EmdHeap Proofs.EmdTransform Proofs.EmdHeapPos Proofs.EmdHeapOrd Proofs.EmdPotential
-  Proofs.EmdMcfCert.
+  Proofs.EmdMcfCert Proofs.EmdHeapMem Proofs.EmdDijkstra Proofs.EmdDijkstraInit.
 From Centro Require Import Model.EmdMcf.
 Import ListNotations.
 Open Scope Z_scope.
@@ -266,3 +266,46 @@ Theorem C10_mcf_cert_optimal : forall nv sk,
   gcost sk f <= gcost sk g.
 Proof. exact mcf_cert_optimal. Qed.
 Print Assumptions C10_mcf_cert_optimal.
+
+(* ------------------------------------------------------------------------------------------------
+   Round 5.  dijkstra_labels_shortest — Full: for every call of compute_shortest_path on lists whose
+   residual arcs (forward entries; backward entries with capacity > 0) have non-negative reduced
+   costs and targets inside the graph, when the Dijkstra loop (array heap, position table, early
+   exit at the first deficit node l) returns, l is finalised and the labels d of the finalised
+   nodes satisfy the three inequalities of C10_potential_update_nonneg: consistency along arcs between
+   finalised nodes, d[l] <= d[a] + rc for arcs leaving the finalised set, d[v] <= d[l] for
+   finalised v (popped keys are non-decreasing).  Proof: loop invariant J (Proofs/EmdDijkstra.v)
+   on top of heap order, position table, heap membership.  (Example: csp_example.) *)
+Theorem C10_dijkstra_labels_shortest : forall nv e rf rb,
+  (forall u v rc, res_arc rf rb u v rc -> (v < nv)%nat /\ 0 <= rc) ->
+  forall d prev from st l, (from < nv)%nat -> length d = nv ->
+  dijkstra (S nv) e rf rb {| sp_h := heap_init nv from; sp_d := d; sp_prev := prev; sp_final := repeat false nv |}
+    = Some (st, l) ->
+  Post nv rf rb st l.
+Proof. exact dijkstra_labels_shortest. Qed.
+Print Assumptions C10_dijkstra_labels_shortest.
+
+(* ssp_reduced_costs_nonneg, potential-update half — Full: the reduced-cost lists handed back by
+   compute_shortest_path are again non-negative on every residual arc (so the invariant survives the
+   shortest-path phase of every iteration).
+   MISSING for the whole iteration (kept partial, named): augment_keeps_residual_nonneg — the arcs of
+   the prev-path are tight (J needs the clause "key of v = d[prev v] + rc"), forward and backward
+   entries of one arc carry opposite reduced costs (mcf_reduced_cost_ghost_invariant, whose step is
+   C10_potential_update_is_shift), so the backward arcs opened by augment have reduced cost 0
+   (C10_potential_update_tight).  With it: Fail unreachable on balanced non-negative graphs and
+   C10_mcf_model_optimal by C10_mcf_cert_optimal; then read_back_bookkeeping for C10_model_total. *)
+Theorem C10_csp_residual_nonneg : forall nv e rf rb,
+  (forall u v rc, res_arc rf rb u v rc -> (v < nv)%nat /\ 0 <= rc) ->
+  forall d prev from dd' prev' rf' rb' l,
+  (from < nv)%nat -> length d = nv -> length rf = nv -> length rb = nv ->
+  compute_shortest_path nv d prev from rf rb e = Some (dd', prev', rf', rb', l) ->
+  forall u v rc, res_arc rf' rb' u v rc -> (v < nv)%nat /\ 0 <= rc.
+Proof. exact csp_residual_nonneg. Qed.
+Print Assumptions C10_csp_residual_nonneg.
+
+(* the loop invariant itself (any fuel, any state satisfying J) *)
+Theorem C10_dijkstra_invariant : forall nv e rf rb,
+  (forall u v rc, res_arc rf rb u v rc -> (v < nv)%nat /\ 0 <= rc) ->
+  forall fuel st st' l, J nv rf rb st -> dijkstra fuel e rf rb st = Some (st', l) -> Post nv rf rb st' l.
+Proof. exact dijkstra_inv. Qed.
+Print Assumptions C10_dijkstra_invariant.
